@@ -730,6 +730,62 @@ def gen_wide(rng):
     out.append("top frameend")
     return "\n".join(out) + "\n"
 
+def gen_huge(rng):
+    """Counts past byte-sized thresholds: 260-330 reactors on one event (fan-out of one tree when the event is sent from a
+    body), so one tree runs more than 256 commands and one payload has more than 255 readers."""
+    g = G(rng); out = []
+    # def 0: the sender (one run); def 1: a reader that does nothing; def 2: a reader that re-sends once
+    out += ["def 0 2", "run 1", rng.choice(["broadcast 0 1", "entevent e0 0 1"]), "run 1", rng.choice(["broadcast 0 2", "entevent e0 0 2", "run s1"])]
+    out += ["def 0 1", "run 0"]
+    out += ["def 0 2", "run 1", rng.choice(["broadcast 1 3", "resmut 0", "run s0"]), "run 0"]
+    n = rng.randint(260, 330)
+    setup = ["spawn", "spawnsys 0"]
+    kinds = rng.choice([["bc:0"], ["eev:e0:0", "anyev:0"], ["bc:0", "eev:e0:0", "anyev:0"]])
+    special = rng.randrange(n)
+    for i in range(n):
+        d = 2 if i == special else 1
+        t = rng.choice(kinds)
+        if rng.random() < 0.03: t = t + " " + rng.choice(kinds)
+        setup.append("on %s %d %s" % (rng.choice("ppc"), d, t))
+    out.append("top acts %d" % len(setup)); out += setup
+    out += ["top acts 1", "run s0"]
+    x = rng.random()
+    if x < 0.4: out += ["top acts 1", "run s0"]
+    elif x < 0.7: out += ["top wbroadcast 0 9"]
+    else: out += ["top wentevent e0 0 9"]
+    out.append("top frameend")
+    return "\n".join(out) + "\n"
+
+def gen_burst(rng):
+    """Bursts: one run makes 9-24 deliveries of mixed kinds to systems that are executing (so they are postponed) — counts
+    past any small batch size in the replay path."""
+    g = G(rng); out = []
+    nsys = rng.randint(2, 3)
+    def burst(n):
+        sc = []
+        for _ in range(n):
+            x = rng.random(); tgt = "s%d" % rng.randrange(nsys)
+            if x < 0.35: sc.append("run %s" % tgt)
+            elif x < 0.5: sc.append("sysevent %s %d %d" % (tgt, rng.randrange(NTY), g.newpid()))
+            elif x < 0.7: sc.append("broadcast 0 %d" % g.newpid())
+            elif x < 0.9: sc.append("resmut 0")
+            else: sc.append("entevent e0 0 %d" % g.newpid())
+        return sc
+    for d in range(nsys):
+        runs = [burst(rng.randint(9, 24)) if (d == 0 or rng.random() < 0.4) else burst(rng.randint(0, 3))]
+        for _ in range(rng.randint(0, 2)): runs.append(burst(rng.randint(0, 2)))
+        out.append("def 0 %d" % len(runs))
+        for sc in runs: out.append("run %d" % len(sc)); out += sc
+    setup = ["spawn"]
+    for d in range(nsys):
+        ts = [t for t in ["bc:0", "res:0", "eev:e0:0"] if rng.random() < 0.6]
+        setup.append("on p %d %s" % (d, " ".join(ts)))
+    out.append("top acts %d" % len(setup)); out += setup
+    out += ["top acts 1", "run s0"]
+    if rng.random() < 0.5: out += ["top acts 1", rng.choice(["broadcast 0 %d" % g.newpid(), "run s1", "resmut 0"])]
+    out.append("top frameend")
+    return "\n".join(out) + "\n"
+
 def gen_visibility(rng):
     """C03/C04/C05: several listeners per event; bodies run other systems (probes) and send further events, so readers
     are sampled at every position of the tree while data entities are still alive."""
@@ -947,6 +1003,8 @@ PROFILES = {
     "cascade": gen_cascade,
     "frames": gen_frames,
     "wide": gen_wide,
+    "huge": gen_huge,
+    "burst": gen_burst,
     "appreact": gen_appreact,
     "deeprec": gen_deeprec,
     "access2": gen_access2,
